@@ -1014,7 +1014,10 @@ def kwname_sets(add, thorough):
                 else:
                     names = ["v"] * (k - 1) + [distinct[cs[-1]]]
                 ones = [make_ov([c], names=[n]) for c, n in zip(cs, names)]
-                many = make_ov(["i", "i", "i"], nd=1, names=["a", "b", "c"] if j % 3 else ["v", "b", "c"])
+                if thorough and j % 4 == 3:
+                    many = make_ov(["i", "i", "i"], nd=1, names=["a", "b", "c"])
+                else:
+                    many = make_ov(["i", "i"], names=["a", "b"] if j % 3 else ["v", "b"])
                 ovs = ones + [many] if j % 2 else [many] + ones
                 for kind in kinds:
                     add(kind, ovs, "kwnames-%s" % pat)
